@@ -163,6 +163,71 @@ def run(ctx):
             elif impl.flatten(rest) != own or with_["labels"] != without["labels"]:
                 s2.violate({"pre": pre, "post": post, "delta": delta}, "own output and labels unchanged", "changed", "the surrounding program's output or addresses are affected by .include_ips")
         s2.sample({"example": "*=0x008000 / .db 1,2 / .include_ips 'inc.ips', 16 / .db 3"})
-        return [s, s2]
+        # through the IPS writer: the included records keep their shifted offsets in the patch, or the assembly fails
+        s3 = core.Stream("S8-include-to-ips-file", "programs with `.include_ips 'f', delta` written through the real IPSWriter (with and without copier header), deltas that carry records to the top of / past the 24-bit offset space; oracle: the standard reader (Spec.Ips.parse) finds each record's bytes at offset + delta (+0x200), in order, or the assembly is refused when such an offset cannot be represented; never wrapped to another offset")
+        import io
+        from a816.program import Program
+        from a816.writers import IPSWriter
+        for i in range(30 if tier == "quick" else 300):
+            nrec = rng.randrange(1, 4)
+            body, recs = b"", []
+            for _ in range(nrec):
+                off = rng.choice([0x8000, 0xFFFFF0, 0xFFFE00, 0xFFFFFF, 0xFF0000, rng.randrange(1 << 24), rng.randrange(1 << 23), rng.randrange(1 << 20)])
+                ln = rng.randrange(1, 40)
+                if rng.random() < 0.3:
+                    v = rng.randrange(256)
+                    body += off.to_bytes(3, "big") + b"\x00\x00" + ln.to_bytes(2, "big") + bytes([v])
+                    recs.append((off, bytes([v]) * ln))
+                else:
+                    d = bytes(rng.randrange(256) for _ in range(ln))
+                    body += off.to_bytes(3, "big") + ln.to_bytes(2, "big") + d
+                    recs.append((off, d))
+            with open(os.path.join(tmp, "top.ips"), "wb") as fh:
+                fh.write(b"PATCH" + body + b"EOF")
+            delta = rng.choice([0, 0x10, 0x20, 0x200, 0x1000, 0x10000, 0x100000, 0x1000000, -0x10, (1 << 24) - 0x8000, 0xFFFF0000])
+            copier = rng.random() < 0.4
+            src = f"*=0x008000\n.db 1,2,3\n.include_ips 'top.ips', {delta if delta >= 0 else '-' + str(-delta)}\n.db 4\n"
+            f = io.BytesIO()
+            old_cwd = os.getcwd()
+            os.chdir(tmp)
+            try:
+                with impl.quiet(), core.watchdog(20):
+                    p_ = Program()
+                    w = IPSWriter(f, copier)
+                    w.begin()
+                    err = p_.assemble_string_with_emitter(src, "main.s", w)
+                    w.end()
+                st = "ok" if err is None else "rejected"
+            except core.Timeout:
+                st = "timeout"
+            except Exception as e:  # noqa: BLE001
+                st = "rejected"
+            finally:
+                os.chdir(old_cwd)
+            s3.cases += 1
+            shift = 0x200 if copier else 0
+            exp = [(a + delta + shift, d) for a, d in recs]
+            unrep = any(a < 0 or a >= (1 << 24) or a == 0x454F46 for a, _ in exp)
+            s3.nontrivial.add((delta, copier, unrep, st))
+            s3.count("unrepresentable" if unrep else "representable")
+            inp = {"src": src, "copier_header": copier, "patch_records": [(hex(a), len(d)) for a, d in recs], "delta": delta}
+            if unrep:
+                if st == "ok":
+                    sp = drv.ask([f"spec.ipsparse {f.getvalue().hex()}"])[0]
+                    s3.violate(inp, "refused (offset + delta is not a 24-bit IPS offset)", "patch written: " + sp[:120], "an included record carried past the IPS offset space is written at another offset instead of refused")
+                continue
+            if st != "ok":
+                s3.violate(inp, "assembled", st, "a program including a well-formed patch at representable offsets is rejected")
+                continue
+            sp = drv.ask([f"spec.ipsparse {f.getvalue().hex()}"])[0]
+            got = parse_blocks(sp[5:] if sp.startswith("some") and len(sp) > 5 else "-")
+            j = 0
+            for blk in got:
+                if j < len(exp) and blk == exp[j]:
+                    j += 1
+            if j != len(exp):
+                s3.violate(inp, [(hex(a), d[:4].hex()) for a, d in exp], [(hex(a), d[:4].hex()) for a, d in got], "the patch file does not hold the included records at offset + delta, in order")
+        s3.sample({"example": ".include_ips 'top.ips', 0x20 with a record at 0xFFFFF0"})
+        return [s, s2, s3]
     finally:
         shutil.rmtree(tmp, ignore_errors=True)
